@@ -63,8 +63,16 @@ def case(draw):
         have = set(n for n, _ in spec['ics'])
         for name, rhs, kind in spec['eqs']:
             if kind != 'const' and name not in have:
-                spec['ics'].append([name, draw(st.sampled_from(['5.0', '-2.5', '0.0', '10', '0.125']))])
+                spec['ics'].append([name, draw(st.sampled_from(['5.0', '-2.5', '0.0', '10', '0.125', 'sqrt(16.)', '2*pi',
+                                                                'exp(0.0) + 1.0']))])
         spec['layout']['perm'] = None
+    if spec['exo'] and draw(st.sampled_from([True, False, False])):
+        # an exogenous path written with math-library functions / constants (constant expressions may use them)
+        import math
+        e0 = spec['exo'][0]
+        n = len(e0[3])
+        item, val = draw(st.sampled_from([('sqrt(4.0)', 2.0), ('pi', math.pi), ('exp(1.0)', math.exp(1.0)), ('floor(2.5) + 0.5', 2.5)]))
+        spec['exo'][0] = [e0[0], '[%s]*%d' % (item, n), 'repeat', [val] * n]
     # the template indexes exogenous lists directly: make sure they are long enough (they are, by construction)
     return spec
 
